@@ -40,6 +40,7 @@ class RecSource(ScheduleSource):
         self.rec = rec
         self.spec = spec
         self.items: List[ScheduledTask] = []
+        self.raw_time: Dict[str, Any] = {}  # schedule id -> the time as it was declared (by_time sources)
         self.calls = 0
 
     async def get_schedules(self) -> List[ScheduledTask]:
@@ -63,6 +64,12 @@ class RecSource(ScheduleSource):
         self.rec.add("poll_ok", src=self.idx, n=n, ids=[s.schedule_id for s in listed])
         if self.spec.get("by_ref"):
             return self.items  # a simple source hands out its own list (and edits it in post_send)
+        if self.spec.get("by_time"):
+            # a source that keeps declarations and builds the schedule objects anew for every listing (what the bundled
+            # label source does)
+            return [s_ if s_.time is None else ScheduledTask(task_name=s_.task_name, labels={}, args=[], kwargs={},
+                                                             schedule_id=s_.schedule_id, time=self.raw_time[s_.schedule_id])
+                    for s_ in listed]
         return listed
 
     def pre_send(self, task: ScheduledTask) -> Any:
@@ -90,7 +97,13 @@ class RecSource(ScheduleSource):
     def _post(self, task: ScheduledTask) -> None:
         self.rec.add("post_send", src=self.idx, sid=task.schedule_id)
         if task.time is not None and task.cron is None:
-            if self.spec.get("by_ref"):
+            if self.spec.get("by_time"):
+                # ... and finds the declaration of a one-shot it is told was sent by its time (the bundled label source's rule)
+                cands = [s_ for s_ in self.items if s_.cron is None and self.raw_time.get(s_.schedule_id) == task.time]
+                pick = next((s_ for s_ in cands if s_.schedule_id == task.schedule_id), cands[0] if cands else None)
+                if pick is not None:
+                    self.items = [s_ for s_ in self.items if s_ is not pick]
+            elif self.spec.get("by_ref"):
                 for s_ in list(self.items):
                     if s_.schedule_id == task.schedule_id:
                         self.items.remove(s_)
@@ -193,6 +206,8 @@ def gen_c15_spec(rng: random.Random, minutes_max: int) -> Dict[str, Any]:
         npolls = minutes + 2
         src: Dict[str, Any] = {"items": items, "lat": rng.choice([0, 0, 0.001, 0.2, 0.9]), "post_async": rng.random() < 0.3,
                                "pre_async": rng.random() < 0.3, "by_ref": rng.random() < 0.3}
+        if not src["by_ref"] and rng.random() < 0.3:
+            src["by_time"] = True
         if src["by_ref"]:
             # (what such a source "listed" is whatever its list holds when the scheduler reads it: no edits between polls)
             for it_ in items:
@@ -271,6 +286,7 @@ def run_c15(spec: Dict[str, Any]) -> "tuple[Rec, Dict[str, Any]]":
                     tzs = {"zi": ("zi", "Asia/Kolkata"), "utc": "utc", None: None}[it["tz"]]
                     st = ScheduledTask(task_name="tk", labels={}, args=[], kwargs={}, schedule_id=it["id"],
                                        time=S.mk_time(it["time_us"], tzs))
+                    src.raw_time[it["id"]] = S.mk_time(it["time_us"], tzs)
 
                 def _add(src: RecSource = src, st: ScheduledTask = st) -> None:
                     src.items.append(st)
@@ -530,16 +546,22 @@ def oracle_c15(rec: Rec, info: Dict[str, Any], spec: Dict[str, Any]) -> "tuple[L
             # within [B, B+1s] of a boundary B (both the round before B and the round at B are
             # eligible), or when a scheduled send is still pending / in flight at the next round.
             elig = []
+            elig_i = []
             for pe in ls:
                 if pe["n"] not in round_done:
                     continue
                 t_eval = round_done[pe["n"]]
                 if T <= t_eval - t_eval % M + M + 1_000_000:
                     elig.append(t_eval)
+                    elig_i.append(pe["i"])
+            # ... "before the source has been told": a source that still lists the one-shot after its post_send ran for
+            # it is not that mechanism
+            told = min((e["i"] for e in rec.ev if e["k"] == "post_send" and e.get("sid") == sid and e.get("src") == ls[0].get("src")),
+                       default=10 ** 12)
             kind = "oneshot-sent-twice"
             if len(ks) == len(elig) and all(
                 max(T, te) <= k["us"] <= max(T, te) + 1_000_000 for k, te in zip(ks, elig)
-            ):
+            ) and all(i_ < told for i_ in elig_i):
                 kind = "oneshot-resent-by-next-poll-before-removal"
             v.append(Violation(kind, f"{sid}: T=+{(T - start) / 1e6}s sent {len(ks)} times at +{[(k['us'] - start) / 1e6 for k in ks]}s; listing rounds evaluated at +{[(t - start) / 1e6 for t in elig]}s"))
     return v, cnt
